@@ -232,6 +232,8 @@ def main():
                 pre.append(ob)
             prev_argv, prev_path = sys.argv, sys.path
             so, se = io.StringIO(), io.StringIO()
+            if run.get('stdout_closed'):
+                so.close()          # kernprof's own print()s (after the results are dumped) raise ValueError
             raised = None
             with contextlib.redirect_stdout(so), contextlib.redirect_stderr(se):
                 try:
